@@ -4,7 +4,7 @@ import json
 META = {
     "level": "exploration",
     "technique": "TLA+ shape enumerator generates every message shape; each is built, sent through the real protocol upgrade's Sink (req/resp_msg_to_proto + prost + length prefix) and read back through the opposite Stream (proto_to_req/resp_msg); TLC compares the projected decoded message with the expected one and checks the protobuf type / connection / ttl codes; seeded arbitrary and mutated byte strings are fed to both decoders",
-    "text": "GenKadWire.tla enumerates 182 shapes (6 request and 5 response kinds x key present/empty x 0-2 closer / provider peers x 0-2 addresses per peer (with and without /p2p suffix) x the 4 connection types x record present / publisher / ttl 0, 5, 90 s / value length). For every shape the real codec path is exercised both ways over an in-memory stream; TLC checks decoded = expected (field by field on integer projections), message type code, connection-type codes on the wire, and that an expiry travels as whole seconds without being lost or extended. Fuzzing: truncations of valid frames, random noise with a plausible length prefix and 1-3 byte mutations of valid frames of five kinds go through the request and the response decoder: no panic, and whatever decodes re-encodes to the same message. The model is a shape enumerator, the oracle is identity / error-not-panic.",
+    "text": "GenKadWire.tla enumerates 182 shapes (6 request and 5 response kinds x key present/empty x 0-2 closer / provider peers x 0-2 addresses per peer (with and without /p2p suffix) x the 4 connection types x record present / publisher / ttl 0, 5, 90 s / value length), plus records with 300-900 ms of lifetime left (must go out as ttl 1 and stay expiring). For every shape the real codec path is exercised both ways over an in-memory stream; TLC checks decoded = expected (field by field on integer projections), message type code, connection-type codes on the wire, and that an expiry travels as whole seconds without being lost or extended. Fuzzing: truncations of valid frames, random noise with a plausible length prefix and 1-3 byte mutations of valid frames of five kinds go through the request and the response decoder: no panic, and whatever decodes re-encodes to the same message. The model is a shape enumerator, the oracle is identity / error-not-panic.",
     "note": "Addresses are compared modulo the decoder's normalisation (the peer's own /p2p suffix is appended); addresses carrying a foreign /p2p suffix (dropped by the decoder) are not generated. Expiry is compared at one-second granularity.",
     "design_ref": "6/C44",
 }
